@@ -236,6 +236,11 @@ theorem cinv_step (s s' : St) (e : Ev) (h : CInv s) (hs : step s e = some s') : 
         · simp at hs; subst hs; exact h
         · simp at hs
       · simp at hs
+  | nilnext k =>
+    simp only [step] at hs
+    split at hs
+    · simp at hs; subst hs; exact cinv_of_same h rfl rfl
+    · simp at hs
 
 theorem cinv_reachable (s : St) (h : model.Reachable s) : CInv s :=
   model.invariant CInv ⟨fun id op hi => (by cases hi), fun _ => rfl⟩
